@@ -51,7 +51,7 @@ var curated = map[string][]string{
 	"S-req":  {`{items {summary}}`, `{items {id summary volume}}`, `{boxes {content {summary}}}`, `{item(id: "i1") {summary shipping}}`},
 }
 
-var faultKinds = []string{"transport-error", "http-500-empty", "http-200-empty", "http-200-nonjson", "errors-without-data", "entities-one-short", "entities-one-long", "entities-empty"}
+var faultKinds = []string{"transport-error", "http-500-empty", "http-200-empty", "http-200-nonjson", "http-502-html", "http-500-json-other", "http-200-json-other", "errors-without-data", "entities-one-short", "entities-one-long", "entities-empty"}
 
 // partialKind: an entity request answers with data AND an error whose path
 // points at one field of the first entity, which is null ("this subgraph could
@@ -137,7 +137,7 @@ func families(run *vk.Run) []*family {
 		// entities below lists of lists and non-null list wrappers: faults of the
 		// fetches that collect their items from / merge into nested lists
 		mk("S-shapes", shapes, fedlab.SShapesUniverse(shapes), nil, func(r fedlab.FieldRef) int {
-			if r.Type == "Owner" || r.Field == "secret" || r.Field == "tags" {
+			if r.Type == "Owner" || r.Field == "secret" || r.Field == "tags" || r.Field == "open" || r.Field == "ratio" || r.Field == "meta" {
 				return 1
 			}
 			return 0
@@ -450,6 +450,17 @@ func judgeFault(f *family, lab *fedlab.Lab, q string, b *baseline, F []string, k
 		case "http-200-nonjson":
 			applicable = true
 			return fedlab.JSONResponse(200, "<html>bad gateway</html>", nil), nil, true
+		case "http-502-html":
+			// a proxy in front of the subgraph answers (status fallback: non-2xx, not JSON)
+			applicable = true
+			return fedlab.JSONResponse(502, "<html><body>502 Bad Gateway</body></html>", nil), nil, true
+		case "http-500-json-other":
+			// JSON with neither data nor errors and a non-2xx status
+			applicable = true
+			return fedlab.JSONResponse(500, `{"message":"internal server error","code":500}`, nil), nil, true
+		case "http-200-json-other":
+			applicable = true
+			return fedlab.JSONResponse(200, `{"message":"not a GraphQL response"}`, nil), nil, true
 		case "errors-without-data":
 			applicable = true
 			return fedlab.JSONResponse(200, `{"errors":[{"message":"boom"}]}`, nil), nil, true
